@@ -108,6 +108,9 @@ type PObj struct {
 	Payload string `json:"payload"`
 	Preset  bool   `json:"preset"` // object spec carries an ownerReference of its own
 	DryRun  string `json:"dryRun"` // accept | reject | error
+	// Ver is the API version the spec lists the object under ("" = v1).  Versions of one GroupKind
+	// are served from the same storage: (kind, ns, name) is ONE object whatever the version.
+	Ver string `json:"ver,omitempty"`
 }
 
 type SObj struct {
@@ -306,7 +309,11 @@ func (o SObj) BuildFor(ownerNS string) *unstructured.Unstructured {
 // Build turns a scenario phase object into the API type.
 func (p PObj) Build() corev1alpha1.ObjectSetObject {
 	u := unstructured.Unstructured{Object: map[string]interface{}{}}
-	u.SetGroupVersionKind(schema.GroupVersionKind{Group: Group, Version: "v1", Kind: p.Kind})
+	ver := "v1"
+	if p.Ver != "" {
+		ver = p.Ver
+	}
+	u.SetGroupVersionKind(schema.GroupVersionKind{Group: Group, Version: ver, Kind: p.Kind})
 	u.SetNamespace(p.NS)
 	u.SetName(p.Name)
 	u.Object["spec"] = map[string]interface{}{"v": p.Payload}
